@@ -419,7 +419,8 @@ def gen_cases(T, row, rng, quick):
         if segs[-1][1] is None and (len(segs) - 1) not in chosen and (not quick or row["revision"] == "latest"):
             for c in out[-len(inits):]:
                 if c["init"] == 0 and "trail" not in c:
-                    c["trail"] = [rng.randrange(1, 64), 0x400 + rng.randrange(0, 0x800)]
+                    # -1: exactly up to the aligned offset where the floating entry would start, -2: one byte more
+                    c["trail"] = [-1, -2, rng.randrange(1, 64), 0x400 + rng.randrange(0, 0x800)]
         # one request that is not exactly a segment offset (the setter rounds up); requests by segment name are covered by the
         # init_offset stream through the constructor (the configuration schema only admits numbers)
         if mi == 0 and len(statics) > 1:
@@ -624,6 +625,9 @@ def run_case(T, F, case, rowinfo, full_cache):
         last_present = any(kd["label"] == last_kd["label"] for kd, _, _ in present)
         res["trail"] = []
         for n in case["trail"]:
+            if n < 0:
+                gap = (-len(data)) % last_kd["align"] or last_kd["align"]
+                n = gap if n == -1 else gap + 1
             tail = b"\x5a" * n
             pt = pyres(BootableImage.parse, data + tail, fam, MemoryType.from_label(mt), rev)
             if pt[0] == "ok":
